@@ -95,7 +95,7 @@ def same(f, io, mo):
     if f[0] in ("AS", "AC"):
         return bool(io) and bool(mo) and io[0] == mo[0]
     if f[0] == "AH":                     # the RootCAs pool sizes are an observation of the implementation only
-        return io == mo if f[3].startswith("cache") else io[:2] == mo[:2]
+        return io == mo if f[3].startswith(("cache", "resume_")) else io[:2] == mo[:2]
     return io == mo
 
 
@@ -164,6 +164,24 @@ def predicate(f, io):
         sc = f[3]
         if len(io) < 5:
             return False, "incomplete observation"
+        if sc.startswith("resume_"):
+            # two connections of one client with a ClientSessionCache to servers with tickets on sharing the ticket key;
+            # between them the server's Time / ClientCAs / ClientAuth change: a handshake (resumed or full) completes only
+            # if the peer's identity is certified under the CURRENT configuration.  obs: s1 s2 c2 resumed2 verified2
+            change, a1 = sc.split("_")[1], int(sc.split("_")[2][1:])
+            a2 = {"tighten": a1 + 2, "refused": 4}.get(change, a1)
+            if io[0] != "ok":
+                return False, "control: the first connection of %s (certificate acceptable under the configuration of that time) did not complete" % sc
+            if change == "same":
+                if io[1] != "ok" or io[2] != "ok" or io[3] != "1":
+                    return False, "control: second connection under the unchanged configuration did not resume: %s" % " ".join(io)
+            elif io[1] == "ok" or io[2] == "ok":
+                return False, ("second connection completed (server %s, client %s, resumed=%s, verified chains=%s) although the client "
+                               "certificate is not acceptable under the server's current configuration (%s, ClientAuth %d -> %d)"
+                               % (io[1], io[2], io[3], io[4], change, a1, a2))
+            if io[1] == "ok" and a2 >= 3 and io[4] != "1":
+                return False, "server completed under ClientAuth=%d with a client certificate but without a verified chain" % a2
+            return True, ""
         if sc.startswith("cache"):
             # three connections of Clone()d client configs on one ClientSessionCache: valid name (full), valid name
             # (resumed), then the name of the scenario: a cached session must never stand in for the name check
